@@ -1,4 +1,5 @@
 import Orca.Lemmas.SemSim
+import Orca.Lemmas.SemBranch
 /-!
 # C17 — function entry/exit probes fire once per call on every normal path
 
@@ -38,6 +39,17 @@ theorem c17_entry_exit (fns : List Callee) (F : Func) (hns : noSAL F.body = true
     (ok : (runFunc fns true f F s).ok = true) :
     ∃ g, runFunc fns false g (lowerF F) s = runFunc fns true f F s :=
   lowerF_sim F hns s hs f ok
+
+/-- the same with semantic-after probes on branches in the function (scope of C20's branch theorem: annotated `br` /
+    `br_if`, targets not in loops, not the function label; distinct flag locals, untouched by the program, 0 on entry):
+    the lowered function reproduces results, traps, globals, memory and the whole trace — entry and exit probes at their defining
+    moments included — and differs at most in the flag locals -/
+theorem c17_entry_exit_with_branch_probes (fns : List Callee) (Fl : List Nat) (F : Func)
+    (hsc : scopedL Fl F.body = true) (hnd : (flagsL F.body).Nodup) (hF : ∀ x ∈ flagsL F.body, x ∈ Fl)
+    (hnoesc : ∀ d, pendingL d F.body = []) (s s' : St) (hs : s.stack = []) (hfe : FlagEq Fl s s')
+    (hz : ∀ x ∈ flagsL F.body, flagIs s' x 0) (f : Nat) (ok : (runFunc fns true f F s).ok = true) :
+    ∃ g, FOutRel Fl (runFunc fns true f F s) (runFunc fns false g (lowerF F) s') :=
+  branch_lowerF_sim (fns := fns) Fl F hsc hnd hF hnoesc s s' hs hfe hz f ok
 
 /-! non-vacuity, decided in the kernel. `exF k`: entry probe 1001, exit probe 1002, one result;
     k = 0 falls through, k = 1 returns from inside a block, k = 2 branches to the function label from depth 2,
